@@ -93,11 +93,25 @@ def random_system(rnd):
     label = "generated: " + "".join(kinds) + " " + "; ".join(f"{c}*" + ".".join((spec[m][1] + ("+" if cr else "")) for m, cr in wd) for c, wd in mons) + f" | w={w} anh={al} cross={cross}"
     return label, spec, H0f, Vf
 
-def run(label, spec, H0f, Vf, maxn, cut):
+def run(label, spec, H0f, Vf, maxn, cut, patterns=None):
+    """`patterns`: operator-valued elimination mask of a scalar Hamiltonian, as a set of shift patterns (one integer per mode, closed under
+    negation); only the terms with these shifts are eliminated, all other off-diagonal terms are kept"""
+    spec0 = list(spec)
     spec = sorted(spec, key=lambda m: (ORDER[m[0]], m[1])); ops = [KIND[k](n) for k, n in spec]
     d = {n: o for (k, n), o in zip(spec, ops)}; lam = sympy.Symbol('lambda', real=True)
     H0 = H0f(d); V = Vf(d); ph = [_number_operator_to_placeholder(NumberOperator(o)) for o in ops]
-    Ht, U, Ud = block_diagonalize(H0 + lam * V, symbols=[lam])
+    kw = {}
+    if patterns is not None:
+        patterns = {tuple(p[spec0.index(m)] for m in spec) for p in patterns}          # (modes are re-ordered above)
+        def word(p):
+            t = sympy.S.One
+            for o, e in zip(ops, p):       # creation operators to the left of annihilation operators, mode by mode
+                if e > 0: t = t * Dagger(o) ** e
+            for o, e in zip(ops, p):
+                if e < 0: t = t * o ** (-e)
+            return t
+        kw["fully_diagonalize"] = sympy.Matrix([[sympy.Add(*[word(p) for p in sorted(patterns)])]])
+    Ht, U, Ud = block_diagonalize(H0 + lam * V, symbols=[lam], **kw)
     outs = {n: (Ht[0, 0, n], U[0, 0, n]) for n in range(1, maxn + 1)}
     dim = H0.rows if isinstance(H0, sympy.MatrixBase) else 1
     # an element between low states (|n| <= 2) at order <= 3 with steps of at most 3 quanta passes through |n| <= 5 only
@@ -122,6 +136,12 @@ def run(label, spec, H0f, Vf, maxn, cut):
     H0m = mat(H0); Vm = mat(V); E = np.diag(H0m).real
     elim = np.abs(E.reshape(-1, 1) - E) > 1e-9
     if label.startswith("generated") and (~elim).sum() > len(E): return None       # two Fock states share an unperturbed energy: outside the quantifier
+    if patterns is not None:
+        sel = np.zeros_like(elim)
+        for i_, s_ in enumerate(states_all):
+            for j_, t_ in enumerate(states_all):
+                if tuple(a_ - b_ for a_, b_ in zip(s_, t_)) in patterns: sel[i_, j_] = True      # <s| term |t> raises by s - t
+        elim = elim & sel
     rHt, rU, rUi = reference({(0,): H0m, (1,): Vm}, elim, (maxn,))
     low = [i for i, s in enumerate(states_all) if all(abs(x) <= 2 for x in s)]
     res = []
@@ -140,8 +160,17 @@ def main(seed, ncases, driver, out):
             label, spec, H0f, Vf = random_system(case_rnd(seed, c)); cut = 8
         dist[label.split(" ")[0] + " " + "".join(k for k, _ in spec)] = dist.get(label.split(" ")[0] + " " + "".join(k for k, _ in spec), 0) + 1
         if len(samples) < 12: samples.append({"system": label, "modes": spec})
+        patterns = None
+        if c >= len(SYSTEMS) and c % 3 == 2:
+            # selective elimination with an operator-valued mask: a random symmetric set of shift patterns
+            prnd = case_rnd(seed, 10**6 + c); patterns = set()
+            for _ in range(prnd.randint(1, 3)):
+                pt = tuple(prnd.choice([0, 0, 1, -1, 2]) if k in 'bl' else prnd.choice([0, 1, -1]) for k, _n in spec)
+                if any(pt): patterns |= {pt, tuple(-x for x in pt)}
+            if not patterns: patterns = None
+            else: label += " | mask " + str(sorted(patterns)); dist["with an operator-valued mask"] = dist.get("with an operator-valued mask", 0) + 1
         try:
-            res = run(label, spec, H0f, Vf, 3, cut)
+            res = run(label, spec, H0f, Vf, 3, cut, patterns)
             if res is None: dist["skipped: degenerate Fock levels"] = dist.get("skipped: degenerate Fock levels", 0) + 1; continue
             for (n, eh, eu, nlow) in res:
                 evals += 2 * nlow * nlow; worst = max(worst, eh, eu)
